@@ -1,4 +1,5 @@
 -- Property files of work group I2 (import UF.Props.Cxx lines go here).
+import UF.Props.C03Full
 import UF.Props.C04Full
 import UF.Props.C05Full
 import UF.Props.C12Full
